@@ -16,9 +16,22 @@
       from zero every sample.  Calls through different references to the same instance share its state.
    D  A DIRECT call f(args) of a named function (a name bound by `fn`) is not an instance: as in Lmmm the textual call
       site owns the function's state, as a subtree of the state of the enclosing function / instance / dsp.
-   S  `self` in a function or lambda body is the previous return value of that call site / instance (0 at first);
-      `mem`, `delay`, `now`, `samplerate` as in Lmmm.  "Previous" means the previous EXECUTION (a closure may run a
-      site several times per sample).
+   S  `self` in a function or lambda body is the previous return value of that call site / instance: the feedback cell
+      holds a VALUE of the function's return type (a number, or a tuple / record / sum of numbers: several machine
+      words), zero-initialised = all words zero = 0, tuples / records of zero values, the FIRST constructor of a sum
+      type with a zero payload (mir.rs StateType, observed on both backends).  The cell is the state node of the site
+      (Syntax.self_node / dec); `self` is written XSelf where the function returns a number and XSelfS sh where it
+      returns data of shape sh.  `mem`, `delay`, `now`, `samplerate` as in Lmmm.  "Previous" means the previous
+      EXECUTION (a closure may run a site several times per sample).
+   M  `match e { m1 => e1, .., mn => en }`: e is evaluated, then the FIRST arm whose pattern matches is taken: its
+      constructor patterns bind the payload (fresh cells, like `let`), its body is evaluated.  Literal patterns compare
+      numbers, `_` matches everything, a constructor pattern compares the tag, a tuple pattern matches componentwise.
+      Each arm owns the state of the stateful constructs in its body (child 1 + i of the match node); an arm that is
+      not taken keeps its state (mirgen.rs eval_match / eval_union_match / compile_decision_tree, begin_state_arm).
+      When no arm matches the evaluation is stuck (E_NOMATCH): exhaustiveness is the type checker's business.
+      KNOWN deviations of the real compiler (both backends; pinned in corpus/lmmx): a `_` arm is the DEFAULT wherever it
+      stands and a tuple match is compiled to a decision tree, so an arm that follows a more general one can still be
+      taken (M1), and an arm that the tree duplicates owns one state per copy (M2).
    O  Evaluation order: callee expression, then arguments left to right; operands left to right; tuple elements left
       to right; record fields in canonical (sorted-by-name) order; `a |> f` is f(a).
    N  f({x = a, ..}) calls the named function f with named arguments; a parameter that is not mentioned takes its
@@ -27,8 +40,9 @@
    NOT MODELLED (kept out of the compared programs by the generator, pinned by corpus cases R5 / R5b): for the compiler a
    lambda WITHOUT free local variables is a function constant — bound by `let` it behaves like a local `fn` (direct
    calls, per-call-site state, rule D), not like an instance; the two readings differ only when such a lambda is
-   stateful.  Tuple-valued `self`, assignment to tuple / record fields, recursion through `letrec`, `_` partial
-   application (a macro-stage construct) and the `..` form of incomplete records are outside the syntax.
+   stateful.  Assignment to tuple / record fields, recursion through `letrec`, `_` partial application (a macro-stage
+   construct), the `..` form of incomplete records, constructors used as function values and `self` of a boxed
+   (`type rec`) type are outside the syntax.
 
    State is a TREE keyed by the position in the syntax (Lmmm.Ref.stree): the evaluation of a subexpression receives
    exactly its own subtree (`kid s i`) and returns the new one; sibling subtrees are never seen.  Instance states live
@@ -45,15 +59,13 @@ Definition rbind {A B} (m : res A) (k : A -> res B) : res B :=
 
 Notation "'do' x <- m ; k" := (rbind m (fun x => k)) (at level 200, x pattern, m at level 100, k at level 200).
 
-(* selfv, environment, expression, state subtree, world |-> value, new subtree, new world *)
-Definition evaluator := Z -> xenv -> xexpr -> stree -> world -> res (val * stree * world).
+(* feedback cell of the running function (Syntax.self_part of its site), environment, expression, state subtree, world
+   |-> value, new subtree, new world *)
+Definition evaluator := stree -> xenv -> xexpr -> stree -> world -> res (val * stree * world).
 
 Definition ev_bot : evaluator := fun _ _ _ _ _ => OutOfFuel.
 
 Definition as_num (v : val) : res Z := match v with VNum z => Ok z | _ => Stuck E_NOTNUM end.
-
-Definition self_of (s : stree) : Z := match cell_of s with CSelf z => z | _ => 0%Z end.
-Definition self_cell (v : val) : cellv := match v with VNum z => CSelf z | _ => CNone end.
 
 Definition set_clo_state (w : world) (id : nat) (s : stree) : world :=
   match nth_error (w_clos w) id with
@@ -67,7 +79,7 @@ Section Step.
   Variable rec : evaluator.
 
   (* left to right, element j with the subtree i + j *)
-  Fixpoint eval_list (selfv : Z) (r : xenv) (es : list xexpr) (s : stree) (i : nat) (w : world)
+  Fixpoint eval_list (selfv : stree) (r : xenv) (es : list xexpr) (s : stree) (i : nat) (w : world)
     : res (list val * list stree * world) :=
     match es with
     | [] => Ok ([], [], w)
@@ -77,7 +89,7 @@ Section Step.
         Ok (v :: vs, k :: ks, w2)
     end.
 
-  Fixpoint eval_fields (selfv : Z) (r : xenv) (fs : list (ident * xexpr)) (s : stree) (i : nat) (w : world)
+  Fixpoint eval_fields (selfv : stree) (r : xenv) (fs : list (ident * xexpr)) (s : stree) (i : nat) (w : world)
     : res (list (ident * val) * list stree * world) :=
     match fs with
     | [] => Ok ([], [], w)
@@ -93,8 +105,8 @@ Section Step.
     | None => Stuck E_DANGLING
     | Some c =>
         do (r, w1) <- bind_params_x (ci_params c) vs (ci_env c) w;
-        do (v, kb, w2) <- rec (self_of (ci_state c)) r (ci_body c) (kid (ci_state c) 0) w1;
-        Ok (v, set_clo_state w2 id (ST (self_cell v) [kb]))
+        do (v, kb, w2) <- rec (self_part (ci_state c)) r (ci_body c) (kid (ci_state c) 0) w1;
+        Ok (v, set_clo_state w2 id (self_node v kb))
     end.
 
   (* rule D: run the body of named function k on the state `inst` of the call site (Lmmm.ref_call) *)
@@ -103,8 +115,8 @@ Section Step.
     | None => Stuck E_DANGLING
     | Some fe =>
         do (r, w1) <- bind_params_x (map fst (fe_params fe)) vs (fe_env fe) w;
-        do (v, kb, w2) <- rec (self_of inst) r (fe_body fe) (kid inst 0) w1;
-        Ok (v, ST (self_cell v) [kb], w2)
+        do (v, kb, w2) <- rec (self_part inst) r (fe_body fe) (kid inst 0) w1;
+        Ok (v, self_node v kb, w2)
     end.
 
   (* rule N: the value of every parameter, given or default *)
@@ -118,7 +130,7 @@ Section Step.
         | None =>
             match d with
             | Some de =>
-                do (v, _, w1) <- rec 0%Z (fe_env fe) de st0 w;
+                do (v, _, w1) <- rec st0 (fe_env fe) de st0 w;
                 do (vs, w2) <- fill_defaults fe ps' given w1;
                 Ok (v :: vs, w2)
             | None => Stuck E_NODEFAULT
@@ -133,7 +145,7 @@ Section Step.
     | _ => None
     end.
 
-  Definition apply_x (selfv : Z) (r : xenv) (f : xexpr) (args : list xexpr) (s : stree) (w : world)
+  Definition apply_x (selfv : stree) (r : xenv) (f : xexpr) (args : list xexpr) (s : stree) (w : world)
     : res (val * stree * world) :=
     let n := length args in
     match direct_target r f with
@@ -170,7 +182,7 @@ Section Step.
         end
     | XNow => Ok (VNum now, st0, w)
     | XSr => Ok (VNum SAMPLE_RATE, st0, w)
-    | XSelf => Ok (VNum selfv, st0, w)
+    | XSelf => Ok (VNum (self_of selfv), st0, w)
     | XBin op a b =>
         do (va, ka, w1) <- rec selfv r a (kid s 0) w;
         do (vb, kb, w2) <- rec selfv r b (kid s 1) w1;
@@ -252,6 +264,17 @@ Section Step.
         do (_, ka, w1) <- rec selfv r a (kid s 0) w;
         do (vb, kb, w2) <- rec selfv r b (kid s 1) w1;
         Ok (vb, ST CNone [ka; kb], w2)
+    | XSelfS sh => Ok (dec sh selfv, st0, w)
+    | XCon _ tag None => Ok (VCon tag VUnit, st0, w)
+    | XCon _ tag (Some a) =>
+        do (v, k, w1) <- rec selfv r a (kid s 0) w;
+        Ok (VCon tag v, ST CNone [k], w1)
+    | XMatch sc arms =>
+        do (v, k0, w1) <- rec selfv r sc (kid s 0) w;
+        do (i, m, body) <- find_arm arms v O;
+        do (r', w2) <- mbind m v r w1;
+        do (vb, kb, w3) <- rec selfv r' body (kid s (S i)) w2;
+        Ok (vb, ST CNone (k0 :: arm_kids s (length arms) O i kb), w3)
     end.
 End Step.
 
@@ -272,7 +295,7 @@ Fixpoint xinit (fuel : nat) (gs : list gdecl) (r : xenv) (ft : list fentry) (w :
       let r' := (name, BFun (length ft)) :: r in
       xinit fuel gs' r' (ft ++ [mkF params body r']) w
   | GLet p e :: gs' =>
-      do (v, _, w1) <- xeval fuel ft 0%Z 0%Z r e st0 w;
+      do (v, _, w1) <- xeval fuel ft 0%Z st0 r e st0 w;
       do (r', w2) <- bind_pat p v r w1;
       xinit fuel gs' r' ft w2
   end.
@@ -282,7 +305,7 @@ Fixpoint xlets (ev : evaluator) (r : xenv) (lets : list (pat * xexpr)) (s : stre
   match lets with
   | [] => Ok (r, [], w)
   | (p, e) :: rest =>
-      do (v, k, w1) <- ev 0%Z r e (kid s i) w;
+      do (v, k, w1) <- ev st0 r e (kid s i) w;
       do (r', w2) <- bind_pat p v r w1;
       do (r'', ks, w3) <- xlets ev r' rest s (S i) w2;
       Ok (r'', k :: ks, w3)
@@ -293,7 +316,7 @@ Fixpoint xouts (ev : evaluator) (r : xenv) (outs : list xexpr) (s : stree) (i : 
   match outs with
   | [] => Ok ([], [], w)
   | e :: rest =>
-      do (v, k, w1) <- ev 0%Z r e (kid s i) w;
+      do (v, k, w1) <- ev st0 r e (kid s i) w;
       do z <- as_num v;
       do (zs, ks, w2) <- xouts ev r rest s (S i) w1;
       Ok (z :: zs, k :: ks, w2)
